@@ -408,4 +408,280 @@ theorem beneficiary_two_sided (s0 : State) (h0 : s0.pendingBen = none) (ops : Li
       · exact Or.inr (Or.inl hbn)
       · exact Or.inr (Or.inr (beneficiary_flag_history s0 h0 ops new q x p hp hf))
 
+/-! ### A pending handover is withdrawn only by the owner -/
+
+/-- proposal `p'` continues proposal `p`: same nominee, quota and expiration; approvals only added -/
+def Continues (p p' : PendingBen) : Prop :=
+  p'.newBeneficiary = p.newBeneficiary ∧ p'.newQuota = p.newQuota ∧
+  p'.newExpiration = p.newExpiration ∧
+  (p.approvedByBeneficiary = true → p'.approvedByBeneficiary = true) ∧
+  (p.approvedByNominee = true → p'.approvedByNominee = true)
+
+/-- **pending_withdrawn_only_by_owner.** For every state and every message:
+    * a pending owner proposal disappears (or is replaced) only by a message of the owner, or by
+      its completion (the pending owner confirms and becomes the owner);
+    * a pending worker-key change disappears only by taking effect (nobody can withdraw it);
+    * a pending beneficiary proposal loses its identity or an approval only by a message of the
+      owner (re-proposal), by its completion (it takes effect through a message of the current
+      beneficiary or the nominee), or because ownership is handed over in this message (the
+      confirming new owner drops the old owner's proposal). -/
+theorem pending_withdrawn_only_by_owner (s : State) (op : Op) :
+    (∀ p, s.pendingOwner = some p → (step s op).1.pendingOwner ≠ some p →
+      op.caller? = some s.owner ∨ (op = .changeOwner p p true ∧ (step s op).1.owner = p)) ∧
+    (∀ k, s.pendingWorker = some k → (step s op).1.pendingWorker ≠ some k →
+      (step s op).1.worker = k.newWorker ∧
+      ∃ e, k.effectiveAt ≤ e ∧ (op = .confirmChangeWorker s.owner e ∨ op = .cronTick e)) ∧
+    (∀ p, s.pendingBen = some p →
+      (¬ ∃ p', (step s op).1.pendingBen = some p' ∧ Continues p p') →
+      op.caller? = some s.owner ∨
+      ((step s op).1.pendingBen = none ∧ (step s op).1.beneficiary = p.newBeneficiary ∧
+        (step s op).1.benTerm.quota = p.newQuota ∧
+        (step s op).1.benTerm.expiration = p.newExpiration ∧
+        ∃ c e, op = .changeBeneficiary c p.newBeneficiary p.newQuota p.newExpiration e true ∧
+          (c = s.beneficiary ∨ c = p.newBeneficiary)) ∨
+      (∃ po, op = .changeOwner po po true ∧ s.pendingOwner = some po ∧
+        (step s op).1.owner = po)) := by
+  have he := step_effect s op
+  generalize (step s op).1 = s' at he
+  have crefl : ∀ p : PendingBen, Continues p p := fun p => ⟨rfl, rfl, rfl, id, id⟩
+  cases he with
+  | noChange =>
+    exact ⟨fun p h1 h2 => absurd h1 h2, fun k h1 h2 => absurd h1 h2,
+      fun p h1 h2 => absurd ⟨p, h1, crefl p⟩ h2⟩
+  | proposeOwner newAddr =>
+    exact ⟨fun p h1 h2 => Or.inl rfl, fun k h1 h2 => absurd h1 h2,
+      fun p h1 h2 => Or.inl rfl⟩
+  | confirmOwner po hp hne =>
+    refine ⟨fun p h1 h2 => ?_, fun k h1 h2 => absurd h1 h2,
+      fun p h1 h2 => Or.inr (Or.inr ⟨po, rfl, hp, rfl⟩)⟩
+    rw [hp] at h1; injection h1 with h1; subst h1
+    exact Or.inr ⟨rfl, rfl⟩
+  | changeWorker nw nc e hlen =>
+    exact ⟨fun p h1 h2 => Or.inl rfl, fun k h1 h2 => Or.elim (Classical.em True)
+      (fun _ => absurd (by simp [h1]) h2) (fun _ => absurd (by simp [h1]) h2),
+      fun p h1 h2 => Or.inl rfl⟩
+  | applyWorker op e k hop hk hle =>
+    refine ⟨fun p h1 h2 => absurd h1 h2, fun k' h1 h2 => ?_,
+      fun p h1 h2 => absurd ⟨p, h1, crefl p⟩ h2⟩
+    rw [hk] at h1; injection h1 with h1; subst h1
+    exact ⟨rfl, e, hle, hop⟩
+  | withdraw c a e w hc hb hav hw =>
+    exact ⟨fun p h1 h2 => absurd h1 h2, fun k h1 h2 => absurd h1 h2,
+      fun p h1 h2 => absurd ⟨p, h1, crefl p⟩ h2⟩
+  | proposeBen new q x e hq =>
+    exact ⟨fun p h1 h2 => Or.inl rfl, fun k h1 h2 => absurd (by simpa using h1) h2,
+      fun p h1 h2 => Or.inl rfl⟩
+  | approveBen c p e hp hc hc2 =>
+    refine ⟨fun p h1 h2 => absurd (by simpa using h1) h2,
+      fun k h1 h2 => absurd (by simpa using h1) h2, fun p' h1 h2 => ?_⟩
+    rw [hp] at h1; injection h1 with h1; subst h1
+    right; left
+    rw [benFinish_spec _ _ _ p hp] at h2 ⊢
+    split
+    · exact ⟨rfl, rfl, rfl, rfl, c, e, rfl, hc2⟩
+    · rename_i hno
+      rw [if_neg hno] at h2
+      exfalso; apply h2
+      refine ⟨_, rfl, rfl, rfl, rfl, ?_, ?_⟩ <;> intro hf <;> simp [hf]
+
+/-! ### Strangers change nothing -/
+
+/-- **strangers_change_nothing.** A message whose caller is none of: the owner, the pending owner,
+    the beneficiary, the nominee of the pending beneficiary proposal — leaves the whole record
+    (owner, worker, control addresses, beneficiary, term, and everything pending) unchanged.  In
+    particular the worker and the control addresses have no say over any of it. -/
+theorem strangers_change_nothing (s : State) (op : Op) (c : Nat) (hc : op.caller? = some c)
+    (h1 : c ≠ s.owner) (h2 : s.pendingOwner ≠ some c) (h3 : c ≠ s.beneficiary)
+    (h4 : ∀ p, s.pendingBen = some p → c ≠ p.newBeneficiary) : (step s op).1 = s := by
+  have he := step_effect s op
+  generalize (step s op).1 = s' at he
+  cases he with
+  | noChange => rfl
+  | proposeOwner newAddr => simp [Op.caller?] at hc; exact absurd hc.symm h1
+  | confirmOwner po hp hne => simp [Op.caller?] at hc; subst hc; exact absurd hp h2
+  | changeWorker nw nc e hlen => simp [Op.caller?] at hc; exact absurd hc.symm h1
+  | applyWorker op e k hop hk hle =>
+    rcases hop with hop | hop <;> subst hop <;> simp [Op.caller?] at hc
+    exact absurd hc.symm h1
+  | withdraw c' a e w hc' hb hav hw =>
+    simp [Op.caller?] at hc; subst hc
+    rcases hc' with hc' | hc'
+    · exact absurd hc' h1
+    · exact absurd hc' h3
+  | proposeBen new q x e hq => simp [Op.caller?] at hc; exact absurd hc.symm h1
+  | approveBen c' p e hp hc' hc2 =>
+    simp [Op.caller?] at hc; subst hc
+    rcases hc2 with hc2 | hc2
+    · exact absurd hc2 h3
+    · exact absurd hc2 (h4 p hp)
+
+/-- Only the owner alters the control addresses or records a worker-key change; the cron callback
+    (no message caller) and the owner are the only ones that alter the worker. -/
+theorem worker_controls_only_by_owner (s : State) (op : Op) :
+    ((step s op).1.controls ≠ s.controls → op.caller? = some s.owner) ∧
+    ((step s op).1.pendingWorker ≠ s.pendingWorker →
+      op.caller? = some s.owner ∨ op.caller? = none) ∧
+    ((step s op).1.worker ≠ s.worker → op.caller? = some s.owner ∨ op.caller? = none) := by
+  have he := step_effect s op
+  generalize (step s op).1 = s' at he
+  cases he with
+  | noChange => exact ⟨fun h => absurd rfl h, fun h => absurd rfl h, fun h => absurd rfl h⟩
+  | proposeOwner => exact ⟨fun h => absurd rfl h, fun h => absurd rfl h, fun h => absurd rfl h⟩
+  | confirmOwner => exact ⟨fun h => absurd rfl h, fun h => absurd rfl h, fun h => absurd rfl h⟩
+  | changeWorker => exact ⟨fun _ => rfl, fun _ => Or.inl rfl, fun h => absurd rfl h⟩
+  | applyWorker op e k hop hk hle =>
+    rcases hop with hop | hop <;> subst hop
+    · exact ⟨fun h => absurd rfl h, fun _ => Or.inl rfl, fun _ => Or.inl rfl⟩
+    · exact ⟨fun h => absurd rfl h, fun _ => Or.inr rfl, fun _ => Or.inr rfl⟩
+  | withdraw => exact ⟨fun h => absurd rfl h, fun h => absurd rfl h, fun h => absurd rfl h⟩
+  | proposeBen =>
+    exact ⟨fun h => absurd (by simp) h, fun h => absurd (by simp) h, fun h => absurd (by simp) h⟩
+  | approveBen =>
+    exact ⟨fun h => absurd (by simp) h, fun h => absurd (by simp) h, fun h => absurd (by simp) h⟩
+
+/-! ### Until the handover completes the previous party keeps its rights -/
+
+/-- **rights_kept.** In every state, whatever is pending (owner proposal, key change, beneficiary
+    proposal with any approvals):
+    * the owner still passes every owner-only check: `ChangeWorkerAddress`,
+      `ConfirmChangeWorkerAddress`, `ChangeOwnerAddress` and a well-formed `ChangeBeneficiary`
+      proposal by the owner succeed;
+    * nobody else — in particular not the pending owner, the pending worker or the nominee —
+      passes the owner-only checks of `ChangeWorkerAddress` / `ConfirmChangeWorkerAddress`;
+    * the owner and the current beneficiary pass the caller check of `WithdrawBalance` and the
+      withdrawal succeeds whenever the beneficiary is the owner or the term has quota available;
+      everybody else is refused;
+    * and a step that does not change owner / worker / beneficiary leaves the corresponding caller
+      predicates (`isOwner`, worker ∈ `isControlling`, `mayWithdraw`) of that party intact. -/
+theorem rights_kept (s : State) :
+    (∀ nw nc e, nc.length ≤ 10 → (step s (.changeWorker s.owner nw nc e true true)).2 = .ok) ∧
+    (∀ e, (step s (.confirmChangeWorker s.owner e)).2 = .ok) ∧
+    (∀ a, (step s (.changeOwner s.owner a true)).2 = .ok) ∧
+    (∀ n q x e, n ≠ s.owner → 0 < q →
+      (step s (.changeBeneficiary s.owner n q x e true)).2 = .ok) ∧
+    (∀ c, c ≠ s.owner → ∀ nw nc e b1 b2, ∃ err,
+      (step s (.changeWorker c nw nc e b1 b2)) = (s, .err err)) ∧
+    (∀ c, c ≠ s.owner → ∀ e, (step s (.confirmChangeWorker c e)) = (s, .err .forbidden)) ∧
+    (∀ c a e, (c = s.owner ∨ c = s.beneficiary) → 0 ≤ a →
+      (s.beneficiary = s.owner ∨ 0 < s.benTerm.available e) →
+      ∃ w, (step s (.withdrawUse c a e true)).2 = .withdrawn w) ∧
+    (∀ c, c ≠ s.owner → c ≠ s.beneficiary → ∀ a e b,
+      (step s (.withdrawUse c a e b)) = (s, .err .forbidden)) ∧
+    (∀ op, ((step s op).1.owner = s.owner → isOwner (step s op).1 s.owner) ∧
+      ((step s op).1.worker = s.worker → isControlling (step s op).1 s.worker) ∧
+      ((step s op).1.beneficiary = s.beneficiary → mayWithdraw (step s op).1 s.beneficiary)) := by
+  refine ⟨?_, ?_, ?_, ?_, ?_, ?_, ?_, ?_, ?_⟩
+  · intro nw nc e hlen
+    have : ¬ nc.length > maxControlAddresses := by
+      show ¬ nc.length > 10
+      omega
+    simp only [step, changeWorker, this, if_false]
+    by_cases hc : nw ≠ s.worker ∧ s.pendingWorker = none <;> simp [hc]
+  · intro e; simp [step, confirmChangeWorker]
+  · intro a; simp [step, changeOwner]
+  · intro n q x e hn hq
+    have : ¬ q ≤ 0 := by omega
+    simp [step, changeBeneficiary, hn, this]
+  · intro c hc nw nc e b1 b2
+    simp only [step, changeWorker]
+    by_cases h1 : nc.length > maxControlAddresses
+    · exact ⟨.illegalArgument, by simp [h1]⟩
+    · cases b1
+      · exact ⟨.illegalArgument, by simp [h1]⟩
+      · cases b2
+        · exact ⟨.illegalArgument, by simp [h1]⟩
+        · exact ⟨.forbidden, by simp [h1, hc]⟩
+  · intro c hc e; simp [step, confirmChangeWorker, hc]
+  · intro c a e hc ha hav
+    simp only [step, withdrawUse]
+    have h1 : ¬ (c ≠ s.owner ∧ c ≠ s.beneficiary) := by
+      rcases hc with hc | hc <;> simp [hc]
+    have h2 : ¬ a < 0 := by omega
+    rw [if_neg h1, if_neg h2]
+    by_cases hb : s.beneficiary ≠ s.owner
+    · have hpos : 0 < s.benTerm.available e := by
+        rcases hav with hav | hav
+        · exact absurd hav hb
+        · exact hav
+      have hnz : ¬ s.benTerm.available e = 0 := by omega
+      rw [if_pos hb]
+      simp only [hnz, if_false, Bool.not_true, Bool.false_eq_true]
+      by_cases hw : (if a ≤ s.benTerm.available e then a else s.benTerm.available e) > 0
+      · rw [if_pos hw]; exact ⟨_, rfl⟩
+      · rw [if_neg hw]; exact ⟨_, rfl⟩
+    · rw [if_neg hb]
+      exact ⟨a, by simp⟩
+  · intro c h1 h2 a e b
+    simp [step, withdrawUse, h1, h2]
+  · intro op
+    exact ⟨fun h => h.symm, fun h => Or.inr (Or.inl h.symm), fun h => Or.inr h.symm⟩
+
+/-! ### Non-vacuity: concrete histories meeting the hypotheses (100 owner, 101 worker,
+    102 control, 103 new owner, 104 new worker, 105/106 nominees, 107 stranger) -/
+
+def ex0 : State := init 100 101 [102]
+
+/-- owner handover: proposal by 100, confirmation by 103 changes the owner (hypothesis of
+    `owner_two_step` is satisfiable), while a confirmation attempt by a stranger or with another
+    address does not -/
+example : (step (run ex0 [.changeOwner 100 103 true]) (.changeOwner 103 103 true)).1.owner = 103 ∧
+    (run ex0 [.changeOwner 100 103 true]).owner = 100 ∧
+    (step (run ex0 [.changeOwner 100 103 true]) (.changeOwner 107 103 true)).1.owner = 100 ∧
+    (step (run ex0 [.changeOwner 100 103 true]) (.changeOwner 103 107 true)).1.owner = 100 := by
+  decide
+
+/-- the owner revokes its proposal by naming itself; the former nominee can no longer confirm -/
+example : (run ex0 [.changeOwner 100 103 true, .changeOwner 100 100 true]).pendingOwner = none ∧
+    (run ex0 [.changeOwner 100 103 true, .changeOwner 100 100 true,
+      .changeOwner 103 103 true]).owner = 100 := by decide
+
+/-- worker key change requested at epoch 5: not applied at 904 (cron or confirm), applied at 905 -/
+example :
+    (run ex0 [.changeWorker 100 104 [102] 5 true true, .cronTick 904,
+      .confirmChangeWorker 100 904]).worker = 101 ∧
+    (run ex0 [.changeWorker 100 104 [102] 5 true true, .cronTick 905]).worker = 104 ∧
+    (run ex0 [.changeWorker 100 104 [102] 5 true true, .confirmChangeWorker 100 905]).worker = 104 ∧
+    (run ex0 [.changeWorker 100 104 [102] 5 true true, .confirmChangeWorker 104 905]).worker = 101 := by
+  decide
+
+/-- beneficiary: 100 (owner = beneficiary) proposes 105, 105 accepts → 105 with quota 50 until 1000.
+    Then the owner proposes 106 at epoch 10 while 105's term is active: 106's approval alone is not
+    enough, 105's approval completes it; whereas after 105's quota is used up the owner's proposal
+    is pre-approved and the nominee's approval suffices. -/
+def exBen : List Op :=
+  [.changeBeneficiary 100 105 50 1000 6 true, .changeBeneficiary 105 105 50 1000 7 true]
+
+example : (run ex0 exBen).beneficiary = 105 ∧
+    (run ex0 exBen).benTerm = { quota := 50, usedQuota := 0, expiration := 1000 } ∧
+    (run ex0 (exBen ++ [.changeBeneficiary 100 106 70 2000 10 true,
+      .changeBeneficiary 106 106 70 2000 11 true])).beneficiary = 105 ∧
+    (run ex0 (exBen ++ [.changeBeneficiary 100 106 70 2000 10 true,
+      .changeBeneficiary 106 106 70 2000 11 true,
+      .changeBeneficiary 105 106 70 2000 12 true])).beneficiary = 106 ∧
+    (run ex0 (exBen ++ [.withdrawUse 105 80 8 true, .changeBeneficiary 100 106 70 2000 10 true,
+      .changeBeneficiary 106 106 70 2000 11 true])).beneficiary = 106 ∧
+    (run ex0 (exBen ++ [.withdrawUse 105 80 8 true])).benTerm.usedQuota = 50 := by
+  decide
+
+/-- a stranger (107), the worker (101) and a control address (102) change nothing, in a state with
+    all three handovers pending -/
+def exBusy : State :=
+  run ex0 (exBen ++ [.changeOwner 100 103 true, .changeWorker 100 104 [102] 5 true true,
+    .changeBeneficiary 100 106 70 2000 10 true])
+
+example : exBusy.pendingOwner = some 103 ∧ exBusy.pendingWorker.isSome ∧ exBusy.pendingBen.isSome ∧
+    (∀ c ∈ [107, 101, 102],
+      (step exBusy (.changeOwner c c true)).1 = exBusy ∧
+      (step exBusy (.changeWorker c c [c] 2000 true true)).1 = exBusy ∧
+      (step exBusy (.confirmChangeWorker c 2000)).1 = exBusy ∧
+      (step exBusy (.changeBeneficiary c 106 70 2000 12 true)).1 = exBusy ∧
+      (step exBusy (.withdrawUse c 5 12 true)).1 = exBusy) := by
+  decide
+
+/-- the pending owner's confirmation drops the old owner's pending beneficiary proposal (the
+    third case of `pending_withdrawn_only_by_owner`) but leaves beneficiary 105 in place -/
+example : (step exBusy (.changeOwner 103 103 true)).1.pendingBen = none ∧
+    (step exBusy (.changeOwner 103 103 true)).1.beneficiary = 105 ∧
+    (step exBusy (.changeOwner 103 103 true)).1.owner = 103 := by decide
+
 end BA.MinerControl
